@@ -47,12 +47,20 @@ def cluster_case(inp):
         return {"none": "x", "shared": "x", "perclass": f"a{iso}"}[style]
 
     shared: Dict[int, Any] = {}
+    layout: Dict[str, Any] = {}
 
     def entry(iso):
         # "share": several entries may carry the very same graph object (a list drawn with repetition from a pool)
         if inp.get("share") and iso in shared and rng.random() < 0.6:
             return {"gml": shared[iso], "sig": attr_of(iso), "_iso": iso}
-        G, _ = gl.realise(gl.permuted(B[iso], rng), rng, with_hcount=False)
+        if iso in (1, 2) and layout.get("n") == B[iso]["n"] and layout.get("iso") != iso and rng.random() < 0.5:
+            # a near-miss made by copying and editing: same node ids, same bonds, one bond order / nothing else differs
+            G, _ = gl.realise(gl.induced(B[iso], layout["perm"]), rng, ids=layout["ids"], with_hcount=False)
+        else:
+            perm = list(range(B[iso]["n"]))
+            rng.shuffle(perm)
+            G, ids = gl.realise(gl.induced(B[iso], perm), rng, with_hcount=False)
+            layout.update(n=B[iso]["n"], perm=perm, ids=ids, iso=iso)
         shared[iso] = G
         return {"gml": G, "sig": attr_of(iso), "_iso": iso}
     coder = gl.Coder()
